@@ -142,6 +142,16 @@ impl TokenParser {
     fn stop_reason(&self) -> StopReason {
         self.stop_reason
     }
+    // the rest of TokenParser's public query surface (a rewritten caller may use any of it)
+    fn stopped(&self) -> bool {
+        self.stop_reason != StopReason::NotStopped
+    }
+    fn error_message(&self) -> Option<String> {
+        None
+    }
+    fn num_tokens(&self) -> usize {
+        self.n_consumed
+    }
     fn is_accepting(&mut self) -> bool {
         self.n_other += 1;
         false
